@@ -1227,7 +1227,13 @@ func (self *LockManager) ProcessRecoverLockData(lock *Lock) {
 	}
 	recoverData, recoverValue := lock.data.recoverData, lock.data.recoverValue
 
-	switch currentData.commandType {
+	commandType := currentData.commandType
+	if self.currentData == currentData || recoverValue == nil {
+		// the value is still the one this lock's own operation produced, or the change was recorded as a whole
+		// (PIPELINE: the type is that of its last sub-operation, without an undo value): put the previous value back
+		commandType = protocol.LOCK_DATA_COMMAND_TYPE_SET
+	}
+	switch commandType {
 	case protocol.LOCK_DATA_COMMAND_TYPE_SET:
 		if recoverData == nil {
 			self.currentData = NewLockManagerDataUnsetData(false)
